@@ -485,7 +485,8 @@ def fail_strategy(tier):
         "exprs": st.lists(G.expr_strategy(), min_size=1, max_size=1),
         "npool": st.integers(3, 6),
         "prelink": st.lists(st.tuples(st.sampled_from(["child", "children", "table", "group", "mlist"]), st.integers(0, 3), P).map(list), max_size=4),
-        "api": st.booleans(),
+        # how the expression is handed over: DSL text, the expression API, or the LIST form (one text per path)
+        "api": st.sampled_from([False, True, "list", "list"]),
         "preregistered": st.booleans(),
     })
 
@@ -560,7 +561,7 @@ def fail_run(case, ctx):
                 n.value += 1
                 probes_before.append(sorted(log))
             try:
-                target = G.to_expr(paths) if case["api"] else text
+                target = [G.to_text([pp]) for pp in paths] if case["api"] == "list" else G.to_expr(paths) if case["api"] else text
             except ValueError:
                 target = text
             try:
@@ -619,7 +620,7 @@ def failrem_run(case, ctx):
         push_exception_handler(handler=lambda ev: None, reraise_exceptions=True)
         try:
             try:
-                target = G.to_expr(paths) if case["api"] else text
+                target = [G.to_text([pp]) for pp in paths] if case["api"] == "list" else G.to_expr(paths) if case["api"] else text
             except ValueError:
                 target = text
             try:
